@@ -23,6 +23,7 @@ type Prog struct {
 	// of the program (signature "<name>: deadlock" ...) unless the body already recorded a failure
 	// or sets x.SetData("allow", "deadlock,horizon").
 	ShardDepth int
+	NoShard    bool // the harness distributes whole programs over the shards itself (r.Mine): explore this program completely in this process
 	Delay      int // bound on non-default choices at non-preemptive switch points; 0 = unlimited, n>0 = at most n, -1 = none allowed
 	Seconds    float64 // wall-clock share of this program (0 = whatever is left of the run budget)
 }
@@ -76,6 +77,9 @@ func Run(r *vrun.Run, p Prog) *vsched.Stats {
 		p.Budget.MaxDelay = p.Delay
 	}
 	e := &vsched.Explorer{Opts: p.Opts, Budget: p.Budget, Body: p.Body, Shard: r.Shard, NShards: r.NShards, ShardDepth: p.ShardDepth}
+	if p.NoShard {
+		e.Shard, e.NShards = 0, 1
+	}
 	var deadline time.Time
 	if p.Seconds > 0 {
 		deadline = time.Now().Add(time.Duration(p.Seconds * float64(time.Second)))
